@@ -24,4 +24,13 @@ UNITS = [
     for n, k, fns in [("switch_point", 0, ["bidib_switch_point", "bidib_get_aspect_by_id", "bidib_get_dcc_aspect_by_id"]),
                       ("set_signal", 1, ["bidib_set_signal", "bidib_get_aspect_by_id", "bidib_get_dcc_aspect_by_id"]),
                       ("set_peripheral", 2, ["bidib_set_peripheral", "bidib_get_aspect_by_id"])]
+] + [
+    Unit(name="C09." + n, src="units/C09/power.c", defines=[d], functions=fns, props=pr, no_dfcc=True, kind=kind, bound=bound,
+         remove_bodies=[f for f in _hs if f not in fns], extra_flags=["--nondet-static", "--unwind", "5"], covers=2, min_obligations=5, timeout=300,
+         stubbed_contracts=["bidib_send_cs_set_state / bidib_send_boost_on / bidib_send_boost_off (recording)", "bidib_state_get_board_ref (NULL or a board)"])
+    for n, d, fns, pr, kind, bound in [
+        ("track_output_state_all", "VP_H_ALL", ["bidib_set_track_output_state_all"], ["C20", "C09", "C16"], "bounded", "3 boards with arbitrary content, distinct addresses; loop unwound completely"),
+        ("track_output_state", "VP_H_ONE", ["bidib_set_track_output_state"], ["C09"], "proof", ""),
+        ("booster_power_state", "VP_H_BOOSTER", ["bidib_set_booster_power_state"], ["C09"], "proof", ""),
+    ]
 ]
